@@ -233,6 +233,8 @@ test_openssl_grid(void)
     uint8_t  a[1024], b[1024];
     unsigned long counter = 0;
     unsigned long refused_pwd0 = 0;
+    /* REF_ARGON2_QUICK=1: run every 16th grid case only (about 1.5 s) */
+    int           quick = getenv("REF_ARGON2_QUICK") != NULL;
 
     for (type = 0; type < 3; type++) {
         ossl_kdf[type] = EVP_KDF_fetch(NULL, ossl_names[type], NULL);
@@ -267,6 +269,14 @@ test_openssl_grid(void)
             continue; /* invalid for this lane count */
         }
         counter++;
+        if (quick && counter % 16 != 0) {
+            /* keep the random stream identical to the full run */
+            fill_random(pwd, pwdlens[ip]);
+            fill_random(salt, sizeof salt);
+            fill_random(secret, (counter % 3 == 0) ? counter % 33 : 0);
+            fill_random(ad, (counter % 5 == 0) ? counter % 41 : 0);
+            continue;
+        }
         /* exercise secret / AD on part of the grid */
         secretlen = (counter % 3 == 0) ? (uint32_t) (counter % 33) : 0;
         adlen     = (counter % 5 == 0) ? (uint32_t) (counter % 41) : 0;
